@@ -128,6 +128,9 @@ def case_random(ctx, rng, wd):
     else:
         lists_own, w_own = [], []
         signed = bool(rng.random() < 0.5)
+        late_sign = bool(signed and T > 1 and rng.random() < 0.4)      # weights of mixed sign appear only after the first frame
+        if late_sign:
+            ctx.count("signed_weights_only_in_later_frames")
         for t in range(T):
             ll, ww = [], []
             for i in range(N):
@@ -136,7 +139,7 @@ def case_random(ctx, rng, wd):
                 pick = [int(v) for v in rng.permutation(order[:k + 2])[:k]]
                 ll.append(pick)
                 w = np.round(rng.uniform(0.1, 3.0, size=len(pick)), 6)
-                if signed:
+                if signed and not (late_sign and t == 0):
                     w *= rng.choice([-1.0, 1.0], size=len(pick))
                 ww.append(w)
             lists_own.append(ll)
@@ -228,6 +231,20 @@ def case_random(ctx, rng, wd):
             w *= 1.001
         gfile = os.path.join(wd, "g_l.csv") if rng.random() < 0.3 else ""
         ok, sc = ctx.call("boo_2d.spatial_corr", b.spatial_corr, w, gfile, data=info)
+        if ok and rng.random() < 0.4:
+            # history: the caller normalises the table it was given in place and asks again (same bin width): the new answer must not
+            # be the caller-modified table
+            keep = sc.copy()
+            try:
+                sc["gA"] = sc["gA"] / np.where(sc["gr"] == 0, 1.0, sc["gr"])
+                sc["gr"] = 0.0
+            except Exception:  # noqa: BLE001
+                pass
+            ok_b, sc_b = ctx.call("boo_2d.spatial_corr/asked_again", b.spatial_corr, w, "", data=info)
+            if ok_b:
+                ctx.check("spatial_corr", list(sc_b.columns) == list(keep.columns) and np.allclose(sc_b.values, keep.values, rtol=1e-12, atol=0, equal_nan=True),
+                          "boo_2d.spatial_corr/returned_table_shared", "after the caller modified the returned table in place, a second call returns the modified table", info)
+            sc = keep
         if ok and gfile:
             import pandas as pd
             back = pd.read_csv(gfile)
